@@ -214,6 +214,59 @@ theorem witnesses_violate_guard :
     xmlSafe (w (wTest "m" none [] "s" (some (some "")))) = false ∧
     xmlSafe (w (wTest "m" (some "why") [("http://x", some "n")] "s" (some (some "d")))) = true := by decide
 
+/-! ### independent fields of a result: end time, status, start time
+
+  `ReportWriter._finalize_result` sets `end_time` first and `status` afterwards; tools that build reports fill the fields in
+  any order.  A result of ANY kind (session setup / teardown, suite setup / teardown, test) is serialised FIELD BY FIELD: each
+  optional field is written when it is set, whatever the others hold.  `xml_roundtrip_partial` / `json_roundtrip` already
+  quantify over these reports (the fields of `Result` are independent `Option`s and neither guard relates them); the
+  theorems below say it for the one element. -/
+
+/-- XML: a result element carries every combination of (end time, status, status details) back — also an end time without
+    status, a status without end time, an end before the start — for every tag (`test`, `suite-setup`, …). -/
+theorem xml_result_fields_independent (tag : String) (r : Result) (h : resultSafe r = true) :
+    ∃ x, toXmlResult tag r = .ok x ∧ fromXmlResult x = .ok r := by
+  obtain ⟨x, h1, h2, _, _⟩ := xresult_rt tag r h
+  exact ⟨x, h1, h2⟩
+
+/-- in particular the end time of a result that has NO status (yet) is written and loaded -/
+theorem xml_end_time_without_status_kept (tag : String) (r : Result) (t : Time) (h : resultSafe r = true)
+    (he : r.endTime = some t) (hs : r.status = none) :
+    ∃ x r', toXmlResult tag r = .ok x ∧ fromXmlResult x = .ok r' ∧ r'.endTime = some t ∧ r'.status = none := by
+  obtain ⟨x, h1, h2⟩ := xml_result_fields_independent tag r h
+  exact ⟨x, r, h1, h2, he, hs⟩
+
+/-- JSON: the same, without any guard -/
+theorem json_result_fields_independent (r : Result) : fromJsonResult (toJsonResult r) = .ok r := result_rt r
+
+/-- a report holding a result of every kind with (end time, no status), (status, no end time), (end before start): the XML
+    round trip gives the report back, as the JSON one does -/
+def oddFieldsReport : Report :=
+  let res (st en : Time) (status : Option Status) (hasEnd : Bool) : Result :=
+    { steps := [{ description := "s", startTime := some (st + 1), endTime := some (st + 2), entries := [.log .info "m" (st + 1)] }],
+      startTime := some st, endTime := if hasEnd then some en else none, status := status, statusDetails := none }
+  { title := "t", info := [], nbThreads := 1, startTime := some 0, endTime := some 90, savingTime := none,
+    setup := some (res 10 15 none true), teardown := some (res 80 75 (some .passed) true),
+    suites := [.mk { name := "s1", description := "d", tags := [], properties := [], links := [], rank := 0 }
+                    (some 20) (some 70) (some (res 20 25 none true)) (some (res 60 0 (some .failed) false))
+                    [{ md := { name := "t1", description := "d", tags := [], properties := [], links := [], rank := 0 },
+                       result := res 30 35 none true },
+                     { md := { name := "t2", description := "d", tags := [], properties := [], links := [], rank := 0 },
+                       result := res 40 0 (some .passed) false }] []] }
+
+theorem odd_fields_report_round_trips :
+    xmlSafe oddFieldsReport = true ∧ representable oddFieldsReport = true ∧
+    (match xmlRoundTrip 9 oddFieldsReport with
+     | .loaded r => (r.setup.map (fun x => (x.endTime, x.status)) == some (some 15, none)) &&
+        (match r.suites with
+          | (.mk _ _ _ su td (t1 :: t2 :: _) _) :: _ =>
+            su.map (fun x => (x.endTime, x.status)) == some (some 25, none) &&
+            td.map (fun x => (x.endTime, x.status)) == some (none, some .failed) &&
+            (t1.result.endTime, t1.result.status) == (some 35, none) &&
+            (t2.result.endTime, t2.result.status) == (none, some .passed)
+          | _ => false)
+     | _ => false) = true := by decide
+
 /-- the XML serializer formats start times unconditionally: a report without start time (not producible by
     the reporting API, but representable) makes the save raise `TypeError`; the JSON backend saves `null`. -/
 theorem xml_missing_start_time_save_fails :
